@@ -84,6 +84,39 @@ type c02Variant struct {
 	groups    bool // a git-database directory as user-information source
 	prepend   string
 	noNorm    bool
+	// keymaster_public_keys_filename, in file order: "self" (this server's main CA key), "ed" (its
+	// Ed25519 CA key), "foreign" (a key of some other server); nil = not configured
+	extra []string
+	light bool // the published-keys family: a reduced set of requests (every key type, few names)
+}
+
+// the model's names of the keys (Model/Seal.v): 1 main, 2 Ed25519, 9 foreign
+func (v c02Variant) extraCoq() string {
+	var l []string
+	for _, e := range v.extra {
+		switch e {
+		case "self":
+			l = append(l, "1")
+		case "ed":
+			l = append(l, "2")
+		default:
+			l = append(l, "9")
+		}
+	}
+	return "[" + strings.Join(l, "; ") + "]"
+}
+
+// how many distinct keys /public/sshca must then serve
+func (v c02Variant) wantSSHKeys() int {
+	set := map[string]bool{"self": true}
+	if v.edCA {
+		set["ed"] = true
+	}
+	for _, e := range v.extra {
+		set[e] = true
+	}
+	n := len(set)
+	return n
 }
 
 var c02Templates1 = []sshExtension{
@@ -118,6 +151,12 @@ func c02Variants() []c02Variant {
 		{name: "templates+realm+groups", templates: c02Templates1, realm: "EXAMPLE.COM", groups: true, prepend: "km-"},
 		{name: "ed25519-ca+templates", templates: c02Templates2, edCA: true, groups: true, noNorm: true},
 		{name: "failing-template", templates: c02TemplatesBad},
+		// the published-keys dimension: what keymaster_public_keys_filename already lists x Ed25519 CA
+		{name: "ed25519-ca, foreign keys listed", edCA: true, extra: []string{"foreign", "foreign"}, light: true},
+		{name: "ed25519-ca, own main key listed", edCA: true, extra: []string{"self"}, light: true},
+		{name: "ed25519-ca, own ed25519 key listed", edCA: true, extra: []string{"ed"}, light: true},
+		{name: "ed25519-ca, both own keys listed twice after a foreign key", edCA: true, extra: []string{"foreign", "self", "ed", "self", "ed"}, light: true},
+		{name: "own main key listed, no ed25519 ca", extra: []string{"self", "foreign"}, light: true},
 	}
 }
 
@@ -171,6 +210,13 @@ func c02ExpectedMethods(v c02Variant, user string) []string {
 	return l
 }
 
+// the key of some other keymaster server
+var c02ForeignKey = func() *ecdsa.PrivateKey {
+	k, err := ecdsa.GenerateKey(elliptic.P256(), rand.Reader)
+	c01Must(err)
+	return k
+}()
+
 var c02ExtraUsers = []verifUser{{"a.b-c+d_e", "pw1"}, {"carol.o-neil", "pw2"}, {"x", "pw3"}, {"dave+ssh", "pw4"}}
 
 func c02Setup(t *testing.T, v c02Variant, edKeyPEM []byte) *verifEnv {
@@ -207,6 +253,23 @@ func c02Setup(t *testing.T, v c02Variant, edKeyPEM []byte) *verifEnv {
 			p := filepath.Join(dir, "ed25519Key.asc")
 			c01Must(ioutil.WriteFile(p, buf.Bytes(), 0600))
 			c.Base.Ed25519CAFilename = p
+		}
+		if v.extra != nil {
+			var lines [][]byte
+			for _, e := range v.extra {
+				switch e {
+				case "self":
+					lines = append(lines, c01OwnMainPubLine(c))
+				case "ed":
+					blk, _ := pem.Decode(edKeyPEM)
+					k, err := x509.ParsePKCS8PrivateKey(blk.Bytes)
+					c01Must(err)
+					lines = append(lines, c01AuthorizedKeyLine(k.(ed25519.PrivateKey).Public()))
+				default:
+					lines = append(lines, c01AuthorizedKeyLine(c02ForeignKey.Public()))
+				}
+			}
+			c01WritePublicKeys(c, dir, lines)
 		}
 		if v.groups {
 			gd := filepath.Join(dir, "groupdb")
@@ -337,16 +400,17 @@ func c02FetchPublished(t *testing.T, env *verifEnv) *c02Published {
 	return p
 }
 
-// which published CA a key belongs to: 0 = the main (RSA/ECDSA) one, 1 = Ed25519, 9 = none
+// the model's name of a published CA key: 1 = the main (RSA) one, 2 = the Ed25519 one (0 = the
+// certificate verifies under none of the published keys)
 func c02CAIndex(pub crypto.PublicKey) int {
 	if _, ok := pub.(ed25519.PublicKey); ok {
-		return 1
+		return 2
 	}
-	return 0
+	return 1
 }
 
 func c02Decode(body []byte, status int, keys []*c02Key, pubd *c02Published) c02Obs {
-	o := c02Obs{status: status, keyIdx: 999, signer: 9}
+	o := c02Obs{status: status, keyIdx: 999, signer: 0}
 	if status != 200 {
 		return o
 	}
@@ -387,7 +451,7 @@ func c02Decode(body []byte, status int, keys []*c02Key, pubd *c02Published) c02O
 				}
 			}
 		}
-		if o.signer == 9 && o.verifyErr == "" {
+		if o.signer == 0 && o.verifyErr == "" {
 			o.verifyErr = "signature key is not among the keys of /public/sshca"
 		}
 		return o
@@ -441,7 +505,7 @@ func c02Decode(body []byte, status int, keys []*c02Key, pubd *c02Published) c02O
 			o.verifyErr = err.Error()
 		}
 	}
-	if o.signer != 9 {
+	if o.signer != 0 {
 		o.verifyErr = ""
 	}
 	return o
@@ -500,7 +564,7 @@ func c02Mapper(user string) func(string) string {
 }
 
 func TestVerif_C02(t *testing.T) {
-	res := newVerifResult("4 server configurations (plain; extension templates + Kerberos realm + group database with prefix; Ed25519 CA + templates + normalisation disabled; a template whose expansion fails) x user names (case variants, dots, dashes, plus, UTF-8, 1..255 bytes, seeded random) x 7 key types/sizes x {ssh, x509, x509-kubernetes} x addGroups; requests for other names (case variants, prefixes, other users); logins with case variants; non-trivial = a certificate was issued; distinct by (configuration, name, key, type, groups flag, outcome)")
+	res := newVerifResult("9 server configurations (plain; extension templates + Kerberos realm + group database with prefix; Ed25519 CA + templates + normalisation disabled; a template whose expansion fails; published-keys family: keymaster_public_keys_filename listing foreign keys / own main key / own Ed25519 key / both twice after a foreign key with an Ed25519 CA, own main key without one - reduced request set) x user names (case variants, dots, dashes, plus, UTF-8, 1..255 bytes, seeded random) x 7 key types/sizes x {ssh, x509, x509-kubernetes} x addGroups; requests for other names (case variants, prefixes, other users); logins with case variants; non-trivial = a certificate was issued; distinct by (configuration, name, key, type, groups flag, outcome)")
 	rng := mrand.New(mrand.NewSource(verifSeed()))
 	keys := c02Keys()
 	_, edPriv, err := ed25519.GenerateKey(rand.Reader)
@@ -538,8 +602,13 @@ func TestVerif_C02(t *testing.T) {
 		if v.edCA {
 			wantCAs = 2
 		}
-		if len(pubd.sshKeys) != wantCAs || len(pubd.x509Roots) != wantCAs {
-			hit("harness:published:"+v.name, "harness", fmt.Sprintf("%s: /public/sshca has %d keys, /public/x509ca %d certificates, expected %d", v.name, len(pubd.sshKeys), len(pubd.x509Roots), wantCAs), v.name, nil)
+		distinct := map[string]bool{}
+		for _, k := range pubd.sshKeys {
+			distinct[string(k.Marshal())] = true
+		}
+		if len(distinct) != v.wantSSHKeys() || len(pubd.x509Roots) != wantCAs {
+			hit("published-keys:"+v.name, "the server publishes the keys of its loaded signers (and the configured peer keys), each CA certificate once",
+				fmt.Sprintf("%s: /public/sshca has %d distinct keys (expected %d), /public/x509ca %d certificates (expected %d)", v.name, len(distinct), v.wantSSHKeys(), len(pubd.x509Roots), wantCAs), v.name, nil)
 		}
 		issue := func(user, target string, typ int, ki int, addGroups bool, cred string) c02Obs {
 			k := keys[ki]
@@ -586,7 +655,7 @@ func TestVerif_C02(t *testing.T) {
 				hit("not-end-entity:"+shape, "end-entity user certificate (SSH user type; X.509 non-CA with client-authentication usage)",
 					fmt.Sprintf("%s: type=%s user_type/basic_constraints=%v is_ca=%v client_auth_eku=%v", v.name, c01Types[cs.typ], o.userType, o.isCA, o.ekuClient), d, ob)
 			}
-			if o.signer == 9 {
+			if o.signer == 0 {
 				hit("not-verifiable:"+shape, "the certificate verifies under the CA material the server publishes",
 					fmt.Sprintf("%s: type=%s key=%s: %s", v.name, c01Types[cs.typ], keys[cs.key].name, o.verifyErr), d, ob)
 			}
@@ -634,9 +703,15 @@ func TestVerif_C02(t *testing.T) {
 		// ---- own name: every key type and certificate type for the first names, a rotating
 		// choice for the rest
 		for ni, name := range names {
+			if v.light && ni >= 2 && !(verifThorough() && ni < 6) {
+				continue
+			}
 			for typ := 0; typ < 3; typ++ {
 				for ki := range keys {
 					full := ni < 3 || verifThorough()
+					if v.light && (typ == 2 || (typ == 1 && ki%3 != 0) || (ni == 1 && typ == 0 && ki != 6 && ki != 3)) {
+						continue
+					}
 					if !full && (ni+typ+ki)%4 != 0 {
 						continue
 					}
@@ -662,6 +737,9 @@ func TestVerif_C02(t *testing.T) {
 			return l
 		}
 		for _, u := range []string{"alice", "a.b-c+d_e", "jürgen", "Alice"} {
+			if v.light {
+				break
+			}
 			for oi, tgt := range others(u) {
 				if tgt == u {
 					continue
@@ -720,7 +798,7 @@ func TestVerif_C02(t *testing.T) {
 	for vi, v := range variants {
 		sb.WriteString(fmt.Sprintf("Definition tpl_%d : list (bs * bs) := %s.\n", vi, tplCoq(v.templates)))
 	}
-	sb.WriteString("Definition mk (ed : bool) (tpl : list (bs * bs)) (realm : option bs) (exp : list (bs * option bs)) (g m : option (list bs)) (u tg : bs) (ty : N) (k : option (N * bool)) (ag : bool) (o : observed) : c02case :=\n  {| k_host := " + coqBS(host) + "; k_ed_ca := ed; k_templates := tpl; k_realm := realm; k_expansions := exp; k_groups := g; k_methods := m; k_user := u; k_target := tg; k_type := ty; k_key := k; k_add_groups := ag; k_obs := o |}.\n")
+	sb.WriteString("Definition mk (ed : bool) (extra : list N) (tpl : list (bs * bs)) (realm : option bs) (exp : list (bs * option bs)) (g m : option (list bs)) (u tg : bs) (ty : N) (k : option (N * bool)) (ag : bool) (o : observed) : c02case :=\n  {| k_host := " + coqBS(host) + "; k_ed_ca := ed; k_extra := extra; k_templates := tpl; k_realm := realm; k_expansions := exp; k_groups := g; k_methods := m; k_user := u; k_target := tg; k_type := ty; k_key := k; k_add_groups := ag; k_obs := o |}.\n")
 	sb.WriteString("Definition ob (issued err ssh : bool) (names : list bs) (keyid : bs) (key : N) (ut ca ec ep : bool) (ex : list (bs * bs)) (sg : N) (orgs gr me : list bs) (krb : option (bs * bs)) : observed :=\n  {| o_issued := issued; o_error := err; o_ssh := ssh; o_names := names; o_keyid := keyid; o_key := key; o_user_type := ut; o_is_ca := ca; o_eku_client := ec; o_eku_pkinit := ep; o_exts := ex; o_signer := sg; o_orgs := orgs; o_groups := gr; o_methods := me; o_krb := krb |}.\n")
 	sb.WriteString("Definition cases : list c02case := [\n")
 	var idx strings.Builder
@@ -763,8 +841,8 @@ func TestVerif_C02(t *testing.T) {
 		if i == len(cases)-1 {
 			sep = ""
 		}
-		sb.WriteString(fmt.Sprintf(" mk %s tpl_%d %s [%s] %s %s %s %s %d %s %s\n   (ob %s %s %s %s %s %d %s %s %s %s %s %d %s %s %s %s)%s\n",
-			coqBool(v.edCA), cs.variant, realm, strings.Join(exp, "; "),
+		sb.WriteString(fmt.Sprintf(" mk %s %s tpl_%d %s [%s] %s %s %s %s %d %s %s\n   (ob %s %s %s %s %s %d %s %s %s %s %s %d %s %s %s %s)%s\n",
+			coqBool(v.edCA), v.extraCoq(), cs.variant, realm, strings.Join(exp, "; "),
 			coqOptBSList(c02ExpectedGroups(v, cs.user), true), coqOptBSList(c02ExpectedMethods(v, cs.user), true),
 			coqBS(cs.user), coqBS(cs.target), cs.typ, keyLit, coqBool(cs.addGroups),
 			coqBool(o.issued), coqBool(o.status >= 400), coqBool(o.ssh), coqBSList(o.names), coqBS(o.keyid), o.keyIdx,
